@@ -7,6 +7,8 @@ prop, k, caught = sys.argv[1], int(sys.argv[2]), sys.argv[3]
 out, wt = "/tmp/seed/%s-out" % prop, "/tmp/seed/%s" % prop
 m = json.load(open(os.path.join(out, "meta.json")))
 seeds = m["seeds"] if isinstance(m, dict) and "seeds" in m else m
+if isinstance(seeds, dict):
+    seeds = [seeds[x] for x in sorted(seeds)]
 sd = seeds[k - 1]
 def sh(cmd, **kw):
     return subprocess.run(cmd, shell=True, stdout=subprocess.PIPE, stderr=subprocess.STDOUT, text=True, **kw)
@@ -28,6 +30,8 @@ shutil.copy("%s/seed%d.diff" % (out, k), os.path.join(dst, "patch.diff"))
 for f in os.listdir(out):
     if re.match(r"demo%d(\.|_)" % k, f):
         shutil.copy(os.path.join(out, f), os.path.join(dst, f))
+    elif os.path.isdir(os.path.join(out, f)) and f.endswith("_common"):
+        shutil.copytree(os.path.join(out, f), os.path.join(dst, f), dirs_exist_ok=True)
 json.dump({"property": prop, "seed": k, "file": sd.get("file"), "what_changed": sd.get("what_changed"),
            "why_it_breaks_the_property": sd.get("why_it_breaks_the_property"),
            "what_it_needs_to_manifest": sd.get("what_it_needs_to_manifest"),
